@@ -156,8 +156,12 @@ def run(prop, tier_, sample=None, jobs=12, newino=20):
         # every second case goes through the C ABI (pathrs_inroot_*), the others through the Rust API
         api = "c" if ci % 2 else "rust"
         c["api"] = api
+        # every fifth case is called from a thread with a private descriptor table while the thread-group leader holds a
+        # directory outside the root at the same descriptor numbers (caller context; the outcome must not depend on it)
+        thr = ci % 5 == 4
+        c["in_thread"] = thr
         for bname, feat in FEATS:
-            pv_cases.append(dict(id="%d-%s" % (ci, bname), tree=nodes, feat=feat, trace=False, calls=[dict(lib_call(c), api=api)]))
+            pv_cases.append(dict(id="%d-%s" % (ci, bname), tree=nodes, feat=feat, trace=False, in_thread=thr, calls=[dict(lib_call(c), api=api)]))
             index.append((ci, bname))
         k = kref_call(c)
         if k is not None:
@@ -209,13 +213,13 @@ def judge_c14(data, v, stats, samples):
                 continue
             sig = dict(check="rootops-static", backend=bname, op=c["op"]["op"], final_name=c["split"]["name"], path=path, path2=path2, tree=c["tree"],
                        got=list(got["out"]), want=list(truth_out), opdetail=c["op"])
-            desc = ("[C API] " if c.get("api") == "c" else "") + "%s backend: %s(%r%s) on tree %s: outcome %s, final tree %s; the raw *at call on (in-root parent %r, name %r) gives %s" % (
+            desc = ("[C API] " if c.get("api") == "c" else "") + ("[caller: thread with a private descriptor table] " if c.get("in_thread") else "") + "%s backend: %s(%r%s) on tree %s: outcome %s, final tree %s; the raw *at call on (in-root parent %r, name %r) gives %s" % (
                 bname, json.dumps(c["op"]), path, (", %r" % path2) if path2 else "", c["tree"], got["out"],
                 ("as expected" if same_attrs else "has the right entries but the created object differs in (kind, mode, link body, device, nlink), or an existing object was modified: library %s / %s, raw call %s / %s" % (
                     sorted(got["newattrs"], key=str), sorted(got["oldchanged"], key=str), sorted(ref["newattrs"], key=str) if ref else None, sorted(ref["oldchanged"], key=str) if ref else None))
                 if got["shape"] == truth_shape else "DIFFERS (%s)" % sorted(got["shape"] ^ truth_shape, key=str)[:4],
                 "/".join(c["split"]["dir"]), c["split"]["name"], truth_out)
-            replay = dict(id="replay", tree=[node_to_pv(n) for n in data["trees"][c["tree"]]["nodes"] if n["k"] != "hard"], feat=dict(FEATS)[bname], trace=False, calls=[dict(lib_call(c), api=c.get("api", "rust"))])
+            replay = dict(id="replay", tree=[node_to_pv(n) for n in data["trees"][c["tree"]]["nodes"] if n["k"] != "hard"], feat=dict(FEATS)[bname], trace=False, in_thread=bool(c.get("in_thread")), calls=[dict(lib_call(c), api=c.get("api", "rust"))])
             v.violation(sig, desc, replay)
         if len(samples) < 5 and c["split"]["name"] in (".", ".."):
             samples.append(dict(tree=c["tree"], op=c["op"], path=path, path2=path2, model=list(m_out), kernel_ref=list(ref["out"]) if ref else None,
